@@ -591,6 +591,9 @@ func genC17Relay(g *G) {
 	// API answers
 	run("corpus-api", "st=0,pn=0", "AX", "K:b", "K:c", "AS:0:-1", "AS:0:-1", "OA", "AS:0:-1", "AX", "AX", "T", "AS:0:-1", "OF", "AS:0:-1", "P:r", "AS:0:-1")
 	// push: one per target, retry on tick, URL parameters, ends with the publisher, in-flight at publisher end
+	// budget used up, then stop with nothing left to stop, then start again: the stop resets the budget
+	run("corpus-budget-reset", "st=0,pn=0", "J", "AS:0:-1", "OF", "T", "AS:0:-1", "AX", "AS:0:-1", "OF", "AX", "T", "AS:0:-1", "OA")
+	run("corpus-budget-reset", "st=0,pn=0", "J", "AS:1:-1", "OF", "T", "OF", "T", "AS:1:-1", "AX", "AX", "AS:1:-1", "OF", "T", "OA")
 	run("corpus-push", "st=0,pn=2", "P:r", "T", "QA:0", "QF:1", "T", "QA:1", "T", "p", "T")
 	run("corpus-push", "st=0,pn=1", "P:q10", "QA:0", "QE:0", "T", "QA:0", "p")
 	run("corpus-push", "st=0,pn=1", "P:s", "QA:0", "p", "P:c", "T", "p", "T")
